@@ -91,9 +91,13 @@ def check_sizes(c, f):
             other = [t for t in L.terms if t != size][0]
             if L.terms[other] == -1 and other.startswith('len('):
                 # needs the guard len(acc) < size on the way in
+                def conj(e):
+                    if isinstance(e, ast.BoolOp) and isinstance(e.op, ast.And):
+                        return [y for v in e.values for y in conj(v)]
+                    return [e]
                 tests = [t for t in g.nodes if t.kind == 'test' and any(
                     isinstance(x, ast.Compare) and norm(x.left) == other and isinstance(x.ops[0], ast.Lt) and is_name(x.comparators[0], size)
-                    for x in ast.walk(t.ast))]
+                    for x in conj(t.ast))]
                 ok = any(n in guard_region(g, t, 'true') for t in tests)
                 wit = 'requested %r; guard %s < %s %s' % (L, other, size, 'dominates' if ok else 'missing')
         c.check(ok, f, k, 'the read asks for at most `size` (never more than the caller allowed)', witness=wit, kind='alg', tag='req:' + norm(k)[:50])
@@ -335,6 +339,7 @@ def check_no_discard(c, f):
 MUTANTS = [
     ('osread-size-plus', 'spawnbase', "s = os.read(self.child_fd, size)", "s = os.read(self.child_fd, size + 1)", 'D1'),
     ('loop-read-full-size', 'pty_spawn', "incoming += super(spawn, self).read_nonblocking(size - len(incoming))", "incoming += super(spawn, self).read_nonblocking(size)", 'D1'),
+    ('loop-guard-or', 'pty_spawn', "            while len(incoming) < size and select(0):", "            while len(incoming) < size or select(0):", 'D1'),
     ('popen-split-off', 'popen_spawn', "r, self._buf = buf[:size], buf[size:]", "r, self._buf = buf[:size], buf[size + 1:]", 'D1'),
     ('popen-eof-split-off', 'popen_spawn', "                self._buf = buf[size:]\n                return buf[:size]", "                self._buf = buf[size:]\n                return buf[:size + 1]", 'D1'),
     ('no-repoll-dead', 'pty_spawn', "            if select(0):\n                return super(spawn, self).read_nonblocking(size)\n            self.flag_eof = True\n            raise EOF('End Of File (EOF). Braindead platform.')", "            self.flag_eof = True\n            raise EOF('End Of File (EOF). Braindead platform.')", 'D2'),
